@@ -3,9 +3,9 @@ package main
 // Translation of contract expressions to SMT terms.
 
 import (
-	"golang.org/x/tools/go/ssa"
 	"fmt"
 	"go/types"
+	"golang.org/x/tools/go/ssa"
 	"sort"
 	"strings"
 )
